@@ -218,7 +218,8 @@ def _synset_sort_key(synset: 'Synset') -> tuple[int, int, str]:
 def _shortest_hyp_paths(
         synset: 'Synset', other: 'Synset', simulate_root: bool
 ) -> dict[tuple['Synset', int], list['Synset']]:
-    if synset == other:
+    # inferred synsets all share one rowid; their ILI tells them apart
+    if synset == other and synset._ili == other._ili:
         return {(synset, 0): []}
 
     from_self = _hypernym_paths(synset, simulate_root, True)
